@@ -13,6 +13,10 @@ CHECKS = {
             "exploration: full u16 code domain exhaustive; all other value kinds sampled with weights on %, reserved and multi-byte characters, Table-1 relevant parameter names, method tokens derived from well-known names",
             "trusts ref_sip (independent RFC 3261 splitter / percent-decoder), the mock transport; generators stay inside the documented grammars (qdtext display names, raw token components)",
             "DESIGN.md 3/C01", "E-codec"),
+    'C02': ("proptest over hostile inputs (24-entry mutation catalogue on valid messages, byte-level mutations, random bytes / ASCII / token soup) delivered as datagram, as segmented stream, inside an established dialog and inside a pending INVITE, plus hostile response headers towards Initiator; oracle = process-wide panic capture over every parser / typed decoder / the whole receive path with the UA layers, and bounded liveness: a valid OPTIONS after the input must be answered on the datagram transport and on a fresh connection",
+            "exploration: sampled hostile inputs with per-catalogue-entry coverage counts; decides no panic / overflow / out-of-bounds anywhere on the case's thread (overflow checks on), and that a single bad packet does not silence a transport; hangs are reported by the wall-clock watchdog as inconclusive",
+            "trusts the panic hook + current-thread runtime (every task of a case runs on the case's thread), tokio's paused clock, mock transports; TLS transports and real sockets are outside",
+            "DESIGN.md 3/C02", "E-world"),
     'C03': ("exhaustive enumeration of 1-cut/2-cut segmentations over a 27-message corpus + proptest over generated message sequences and k-cut/dribble segmentations, fed through the real FramedRead<StreamingDecoder>; oracle = differential against the datagram parser (named by the statement) cross-checked with the generator's record",
             "exploration: every 1-cut of every corpus message and of 2-message pipelines with keep-alive patterns, every 2-cut in thorough (1.18 M segmentations), random sequences with decoy headers, all Content-Length spellings, bodies up to 65535 B, heads up to 4096 B",
             "trusts tokio_util FramedRead, the datagram parser as reference (body and header count cross-checked against the generator), hook H1",
